@@ -6,11 +6,11 @@ CXX := clang++
 GEN := $(B)/gen
 HDRS := $(shell find $(INC) -name '*.hpp') $(wildcard sim/*.hpp)
 NTU := 16
-SHAPE_SRCS := $(foreach k,$(shell seq 0 15),$(GEN)/shapes_$(k).cpp) $(GEN)/shape_table.cpp $(GEN)/wide.cpp
+SHAPE_SRCS := $(foreach k,$(shell seq 0 15),$(GEN)/shapes_$(k).cpp) $(GEN)/shape_table.cpp
 EXEC_SRCS := sim/exec_a.cpp sim/exec_b.cpp sim/exec_c.cpp sim/exec_d.cpp sim/main.cpp
 
 HFLAGS := -std=c++14 -O0 -g -fno-omit-frame-pointer -fsanitize=address,undefined -fno-sanitize-recover=undefined -DTROMPELOEIL_SANITY_CHECKS -I$(INC) -Isim -Wno-unused-value
-H_OBJS := $(patsubst $(GEN)/%.cpp,$(B)/H/%.o,$(SHAPE_SRCS)) $(patsubst sim/%.cpp,$(B)/H/%.o,$(EXEC_SRCS))
+H_OBJS := $(patsubst $(GEN)/%.cpp,$(B)/H/%.o,$(SHAPE_SRCS)) $(patsubst sim/%.cpp,$(B)/H/%.o,$(EXEC_SRCS)) $(B)/H/wide.o
 
 all: $(B)/simH $(B)/simT $(B)/simTa $(B)/simC $(B)/simTc
 
@@ -26,6 +26,12 @@ $(B)/H/%.o: $(GEN)/%.cpp $(HDRS) $(GEN)/stamp
 $(B)/H/%.o: sim/%.cpp $(HDRS) $(GEN)/stamp
 	@mkdir -p $(B)/H
 	$(CXX) $(HFLAGS) -c $< -o $@
+# MockWide (C09): if the generated family does not compile against the current headers, keep the compiler's words
+# for C09's check and link a stub so that every other property can still be decided
+$(B)/H/wide.o: $(GEN)/wide.cpp sim/wide_stub.cpp $(HDRS) $(GEN)/stamp
+	@mkdir -p $(B)/H
+	@rm -f $(B)/wide_failed.txt
+	@$(CXX) $(HFLAGS) -c $(GEN)/wide.cpp -o $@ 2> $(B)/wide_compile.err || ( (echo "command: $(CXX) $(HFLAGS) -c $(GEN)/wide.cpp"; grep -m 12 -E "error|note: in instantiation" $(B)/wide_compile.err) > $(B)/wide_failed.txt; $(CXX) $(HFLAGS) -c sim/wide_stub.cpp -o $@ )
 $(B)/simH: $(H_OBJS)
 	$(CXX) $(HFLAGS) $^ -o $@
 
@@ -34,7 +40,7 @@ clean:
 .PHONY: all clean
 
 # ---- Mode T: the scheduler TU is compiled WITHOUT sanitizer instrumentation (DESIGN.md 3.4) ----
-T_SRCS := sim/exec_a.cpp sim/exec_b.cpp sim/exec_c.cpp sim/exec_d.cpp sim/main.cpp sim/modet.cpp
+T_SRCS := sim/exec_a.cpp sim/exec_b.cpp sim/exec_c.cpp sim/exec_d.cpp sim/main.cpp sim/modet.cpp sim/wide_stub.cpp
 WRAP := -Wl,--wrap=pthread_mutex_lock -Wl,--wrap=pthread_mutex_unlock -pthread
 TFLAGS := -std=c++14 -O1 -g -fno-omit-frame-pointer -fsanitize=thread -DSIM_MODE_T -I$(INC) -Isim -Wno-unused-value -pthread
 T_OBJS := $(patsubst $(GEN)/%.cpp,$(B)/T/%.o,$(SHAPE_SRCS)) $(patsubst sim/%.cpp,$(B)/T/%.o,$(T_SRCS))
@@ -51,7 +57,7 @@ $(B)/simT: $(T_OBJS) $(B)/T/sched.o
 	$(CXX) $(TFLAGS) $(WRAP) $^ -o $@
 
 TAFLAGS := -std=c++14 -O0 -g -fno-omit-frame-pointer -fsanitize=address,undefined -fno-sanitize-recover=undefined -DTROMPELOEIL_SANITY_CHECKS -DSIM_MODE_T -I$(INC) -Isim -Wno-unused-value -pthread
-TA_OBJS := $(patsubst $(GEN)/%.cpp,$(B)/H/%.o,$(SHAPE_SRCS)) $(B)/H/exec_a.o $(B)/H/exec_b.o $(B)/H/exec_c.o $(B)/H/exec_d.o $(B)/TA/main.o $(B)/TA/modet.o
+TA_OBJS := $(patsubst $(GEN)/%.cpp,$(B)/H/%.o,$(SHAPE_SRCS)) $(B)/TA/wide_stub.o $(B)/H/exec_a.o $(B)/H/exec_b.o $(B)/H/exec_c.o $(B)/H/exec_d.o $(B)/TA/main.o $(B)/TA/modet.o
 $(B)/TA/%.o: sim/%.cpp $(HDRS) $(GEN)/stamp
 	@mkdir -p $(B)/TA
 	$(CXX) $(TAFLAGS) -c $< -o $@
